@@ -66,6 +66,9 @@ type c18Scenario struct {
 	PredBody int `json:"predecessor_body,omitempty"`
 	// Shape of the downstream connection: 0 plain, 1 http.Pusher (HTTP/2), 2 http.Hijacker (HTTP/1.x), 3 both
 	Shape int `json:"downstream_shape,omitempty"`
+	// ReqCT: Content-Type of the request ("" = none); only urlencoded bodies are
+	// parsed into REQUEST_BODY, the body limit applies to every one of them
+	ReqCT string `json:"request_content_type"`
 }
 
 const c18Tok = "EVILTOK"
@@ -113,13 +116,17 @@ func (sc *c18Scenario) text() string {
 		fmt.Fprintf(&sb, "SecRule RESPONSE_HEADERS:X-Tok \"@contains %s\" \"id:3,phase:3,deny,log%s\"\n", c18Tok, st)
 	case 4:
 		fmt.Fprintf(&sb, "SecRule RESPONSE_BODY \"@contains %s\" \"id:4,phase:4,deny,log%s\"\n", c18Tok, st)
+	case 5:
+		// a phase-4 rule that needs no body: it can only block a response whose
+		// body is held back (the middleware runs phase 4 for buffered responses only)
+		fmt.Fprintf(&sb, "SecRule RESPONSE_HEADERS:X-Tok \"@contains %s\" \"id:5,phase:4,deny,log%s\"\n", c18Tok, st)
 	}
 	return sb.String()
 }
 
 func c18Gen(t *verifrt.Tape) *c18Scenario {
 	sc := &c18Scenario{ClientFail: -1, DownFail: -1}
-	sc.DenyPhase = t.Draw(5)
+	sc.DenyPhase = t.Draw(6)
 	sc.DenyStatus = []int{0, 0, 401, 503}[t.Draw(4)]
 	sc.ReqAccess = t.Draw(4) != 0
 	sc.RespAccess = t.Draw(4) != 0
@@ -171,7 +178,7 @@ func c18Gen(t *verifrt.Tape) *c18Scenario {
 	if t.Draw(3) == 0 {
 		sc.Handler = append(sc.Handler, c18Op{Op: "hdr", K: "X-App", V: "v1"})
 	}
-	if sc.DenyPhase == 3 && hasTok {
+	if (sc.DenyPhase == 3 || sc.DenyPhase == 5) && hasTok {
 		sc.Handler = append(sc.Handler, c18Op{Op: "hdr", K: "X-Tok", V: "x" + c18Tok})
 	}
 	if t.Draw(6) == 0 {
@@ -218,6 +225,7 @@ func c18Gen(t *verifrt.Tape) *c18Scenario {
 		sc.PredBody = 1 + t.Draw(sc.ReqLimit+4)
 	}
 	sc.Shape = t.Draw(4)
+	sc.ReqCT = pick(t, []string{"application/x-www-form-urlencoded", "application/x-www-form-urlencoded", "application/x-www-form-urlencoded", "text/plain", "application/octet-stream", ""})
 	return sc
 }
 
@@ -471,7 +479,9 @@ func (sc *c18Scenario) handler(obs *c18HandlerObs) http.Handler {
 func (sc *c18Scenario) request() *http.Request {
 	u, _ := url.Parse(sc.URI)
 	req := &http.Request{Method: "POST", URL: u, Proto: "HTTP/1.1", ProtoMajor: 1, ProtoMinor: 1, Header: http.Header{}, Host: "example.com", RemoteAddr: "10.9.8.7:4321"}
-	req.Header.Set("Content-Type", "application/x-www-form-urlencoded")
+	if sc.ReqCT != "" {
+		req.Header.Set("Content-Type", sc.ReqCT)
+	}
 	req.Header.Set("User-Agent", "sim")
 	if len(sc.Body) == 0 && sc.KnownLen {
 		req.Body = http.NoBody
@@ -625,7 +635,7 @@ func c18Run(w *verifrt.World, tier Tier) *RunResult {
 			block, blockStatus = 1, denySt
 		case sc.ReqAccess && len(body) >= sc.ReqLimit && sc.ReqReject && (sc.ClientFail < 0 || sc.ClientFail >= sc.ReqLimit):
 			block, blockStatus = 2, 413
-		case sc.DenyPhase == 2 && sc.ReqAccess && sc.ClientFail < 0:
+		case sc.DenyPhase == 2 && sc.ReqAccess && sc.ClientFail < 0 && sc.ReqCT == "application/x-www-form-urlencoded":
 			insp := body
 			if len(insp) > sc.ReqLimit {
 				insp = insp[:sc.ReqLimit]
@@ -674,6 +684,8 @@ func c18Run(w *verifrt.World, tier Tier) *RunResult {
 			block, blockStatus = 3, denySt
 		case processable && len(rb) >= sc.RespLimit && sc.RespReject:
 			block, blockStatus = 4, 500
+		case sc.DenyPhase == 5 && processable && headerPhaseRuns && tokHeader:
+			block, blockStatus = 4, denySt
 		case sc.DenyPhase == 4 && processable:
 			insp := rb
 			if len(insp) > sc.RespLimit {
@@ -701,6 +713,17 @@ func c18Run(w *verifrt.World, tier Tier) *RunResult {
 			res.fail("C18", "foreign-bytes", "handler-read", "under a stream fault the handler read bytes the client did not send: %q is not a prefix of %q%s", obs.Read, sc.Body, ctx())
 		}
 		return res
+	}
+	// whatever the model expects: a transaction that ended interrupted (its audit
+	// record says so) has delivered none of the handler's body bytes
+	if rec != nil && len(rec.Records) > recBefore {
+		last := rec.Records[len(rec.Records)-1]
+		if last.Log != nil && last.Log.Transaction() != nil && last.Log.Transaction().IsInterrupted() {
+			res.count("interrupted_per_audit_record", 1)
+			if got.Body != "" {
+				res.fail("C18", "interrupted-but-delivered", fmt.Sprintf("deny%d", sc.DenyPhase), "the transaction ended interrupted (audit record) but the client received status %d and handler body bytes %q%s", got.Status, got.Body, ctx())
+			}
+		}
 	}
 	if informationalFirst && mode != "Off" {
 		// 1xx handling is compared only through the differential below when nothing blocks
